@@ -1,6 +1,6 @@
 //! C05 — rule optimisation never changes any verdict.
 //! BX: lists over an alphabet whose rules share one bucket and differ in exactly one
-//! fusion-relevant attribute x tag subsets x URLs; four real subjects per list: built with
+//! fusion-relevant attribute x tag subsets x URLs; five real subjects per list: built with
 //! optimisation, built without, and built without followed by the explicit `optimize()` on the
 //! live blocker (twice). Differential oracle on every verdict field + CSP set. DESIGN §4 C05.
 
@@ -122,7 +122,18 @@ fn check_list(rules: &[&str], reqs: &[Req], res: &ResourceStorage, l: &mut Local
     live.optimize();
     // optimize() called after every tag switch (the tagged list is rebuilt, unfused, by use_tags)
     let mut live2 = blocker(rules, false);
-    l.states += 4;
+    // built optimised from all rules but the last, the last one added to the live blocker, then
+    // optimize(): buckets that already hold fused rules are fused again
+    let mut incr = blocker(&rules[..rules.len().saturating_sub(1)], true);
+    let incr_ok = match rules.last() {
+        Some(last) => match parse_filter(last, true, Default::default()) {
+            Ok(ParsedFilter::Network(f)) => incr.add_filter(f).is_ok(),
+            _ => true, // the line is no network rule: nothing to add
+        },
+        None => true,
+    };
+    incr.optimize();
+    l.states += 5;
     let tags_present = vh::alpha::tags_in(rules);
     for tagset in subsets_of(&tags_present) {
         let tagrefs: Vec<&str> = tagset.iter().map(|s| s.as_str()).collect();
@@ -131,17 +142,20 @@ fn check_list(rules: &[&str], reqs: &[Req], res: &ResourceStorage, l: &mut Local
         live.use_tags(&tagrefs);
         live2.use_tags(&tagrefs);
         live2.optimize();
+        incr.use_tags(&tagrefs);
+        incr.optimize();
         for rq in reqs {
             l.evaluations += 1;
-            l.transitions += 4;
+            l.transitions += 5;
             let a = ask(&plain, res, rq);
             let b = ask(&opt, res, rq);
             let c = ask(&live, res, rq);
             let d = ask(&live2, res, rq);
-            let (a, b, c, d) = match (a, b, c, d) {
-                (Ok(a), Ok(b), Ok(c), Ok(d)) => (a, b, c, d),
-                (a, b, c, d) => {
-                    let loc = a.err().or(b.err()).or(c.err()).or(d.err()).unwrap_or_default();
+            let e5 = if incr_ok { ask(&incr, res, rq) } else { a.clone() };
+            let (a, b, c, d, e5) = match (a, b, c, d, e5) {
+                (Ok(a), Ok(b), Ok(c), Ok(d), Ok(e5)) => (a, b, c, d, e5),
+                (a, b, c, d, e5) => {
+                    let loc = a.err().or(b.err()).or(c.err()).or(d.err()).or(e5.err()).unwrap_or_default();
                     l.mismatch(Mismatch {
                         sig: format!("c05.panic@{}", loc),
                         what: format!("panic with rules {:?}", rules),
@@ -151,12 +165,12 @@ fn check_list(rules: &[&str], reqs: &[Req], res: &ResourceStorage, l: &mut Local
                     continue;
                 }
             };
-            l.compared += 3;
+            l.compared += 4;
             if a.0.matched || a.0.exception || a.0.redirect.is_some() || a.0.rewritten.is_some() || a.1.is_some() {
                 l.nontrivial += 1;
                 l.hist(&format!("{}{}", a.0.short(), if a.1.is_some() { "C" } else { "-" }));
             }
-            for (name, other) in [("optimized-at-build", &b), ("optimize()-on-live-blocker", &c), ("optimize()-after-each-use_tags", &d)] {
+            for (name, other) in [("optimized-at-build", &b), ("optimize()-on-live-blocker", &c), ("optimize()-after-each-use_tags", &d), ("optimised-build + add_filter(last) + optimize()", &e5)] {
                 if let Some(field) = diff(&a, other) {
                     l.mismatch(Mismatch {
                         sig: classify(rules, field),
@@ -286,7 +300,7 @@ fn check(ctx: &Ctx) -> i32 {
     });
     ctx.finish(
         "model_checking",
-        "all ordered lists of <= k rules and all k'-element subsets of the rule alphabet (rules that share the wildcard / 'adv*' buckets and differ in one fusion-relevant attribute: pattern, exception, important, tag, type, party, anchors, regex, match-case, hostname, domain, redirect, csp, removeparam); four real blockers per list (built optimised, built unoptimised, unoptimised + optimize() twice, unoptimised + optimize() after every tag switch), under every tag subset, against the request universe; all verdict fields and the CSP set must agree; plus the rule cube: all pairs (thorough: triples) of 53 pattern shapes under each of 19 option sets, as blocking rules and as exceptions, and 12 same-bucket patterns under every two different option sets; non-trivial = the unoptimised engine reports anything",
+        "all ordered lists of <= k rules and all k'-element subsets of the rule alphabet (rules that share the wildcard / 'adv*' buckets and differ in one fusion-relevant attribute: pattern, exception, important, tag, type, party, anchors, regex, match-case, hostname, domain, redirect, csp, removeparam); five real blockers per list (built optimised, built unoptimised, unoptimised + optimize() twice, unoptimised + optimize() after every tag switch, built optimised without the last rule + add_filter(last rule) + optimize()), under every tag subset, against the request universe; all verdict fields and the CSP set must agree; plus the rule cube: all pairs (thorough: triples) of 53 pattern shapes under each of 19 option sets, as blocking rules and as exceptions, and 12 same-bucket patterns under every two different option sets; non-trivial = the unoptimised engine reports anything",
         &["differential: the unoptimised engine is the reference (its own correctness is C01's subject)"],
     )
 }
